@@ -14,4 +14,4 @@ package runtime
 //@ | alltype(input.Point), alltype(input.TFMeta), maptype(map[string]string), maptype(map[string]*input.TFMeta),
 //@ | errchain.PlError.PosChain, elemsof(errchain.Position)
 
-//@ framesweep[C16] runWrites * -*Check -InitCtxForCheck -(*Script).Check -(*Task).SetCallRef -init
+//@ framesweep[C16,C15] runWrites * -*Check -InitCtxForCheck -(*Script).Check -(*Task).SetCallRef -init
